@@ -73,7 +73,7 @@ class MySQLQueryBuilder(QueryBuilder):
         if querystring and self._update_table:
             # same qualification as the rest of the statement (joins / UPDATE..FROM / foreign tables)
             ctx = ctx.copy(
-                with_namespace=bool(self._joins or self._from or self._foreign_table),
+                with_namespace=bool(self._joins or self._from or self._references_foreign_table()),
                 with_alias=False,
                 subquery=True,
             )
